@@ -68,6 +68,15 @@ HAND_MFD = {
     "source_node_without_value": ({"fam": "dag", "nodes": ["s1", "s2", "x", "y", "t1"], "arcs": [["s1", "x", None], ["s1", "y", None], ["s2", "x", None], ["x", "t1", None], ["x", "y", None]],
                                    "node_w": {"s1": 14, "s2": None, "x": 7, "y": 11, "t1": 5}},
                                   {"weight_type": "int", "flow_attr_origin": "node"}),
+    # a node-weighted chain of 12 nodes of which only the last carries a value: the first 20-node window of the subgraph scanning
+    # contains no weighted element at all
+    "chain_only_last_node_weighted": ({"fam": "dag", "nodes": [f"v{i}" for i in range(12)], "arcs": [[f"v{i}", f"v{i + 1}", None] for i in range(11)],
+                                       "node_w": dict({f"v{i}": None for i in range(11)}, v11=5)},
+                                      {"weight_type": "int", "flow_attr_origin": "node"}),
+    # three disjoint source-sink paths carrying 0.1, 0.4, 0.2 (the level sums of the partition constraints are float sums)
+    "three_float_paths": ({"fam": "dag", "nodes": ["s", "a", "b", "c", "t"],
+                           "arcs": [["s", "a", 0.1], ["a", "t", 0.1], ["s", "b", 0.4], ["b", "t", 0.4], ["s", "c", 0.2], ["c", "t", 0.2]]},
+                          {"weight_type": "float"}),
 }
 
 
